@@ -326,9 +326,19 @@ def main():
         else:
             log("INCONCLUSIVE: counterexample for %s did not reproduce natively (%s) - encoding suspected" % (nm, path))
             inconclusive.append((nm, "UNREPLAYED", ""))
+    # Resource exhaustion (time / memory cap) leaves an obligation *not decided*: it is reported as such
+    # and recorded in the evidence (discharged < obligations), but it is not an alarm and not a defect
+    # of the check - exit stays 0 as long as something was decided and nothing else is wrong. Every other
+    # inconclusive outcome (unsupported MIR, unwinding bound too small, vacuous harness, build error,
+    # counterexample that does not replay) means the check itself needs attention: exit 2.
+    hard = []
     for nm, st, err in inconclusive:
-        log("INCONCLUSIVE: %s %s %s" % (nm, st, str(err)[:300]))
-    if exit_code == 0 and inconclusive:
+        if st in ("TIMEOUT", "OOM"):
+            log("NOT-DECIDED: %s %s (resource cap reached; counted as not explored) %s" % (nm, st, str(err)[:200]))
+        else:
+            log("INCONCLUSIVE: %s %s %s" % (nm, st, str(err)[:300]))
+            hard.append(nm)
+    if exit_code == 0 and (hard or (inconclusive and discharged == 0)):
         exit_code = 2
 
     wall = time.time() - t0
